@@ -16,7 +16,7 @@ from vfacts import strip, walk, method_name, root_path, is_node
 from .prov import var_table
 
 RULE = 'ACDUAL'
-FLOOR = 45
+FLOOR = 30
 ANCHORS = ['Antichain2Cv2::contains', 'Antichain2Cv2::refine']
 EXCEPTIONS = {('OptDownwardInclusionFunctor', 'ant_'): 'set of antecedents: contains/refine share arguments by design'}
 AC_CLASSES = ('Antichain2Cv2', 'Antichain1C', 'OrderedAntichain2C')
